@@ -193,6 +193,7 @@ pub fn run(r: &mut Runner) {
                 nb.push([-x[0], -x[1]]);
             }
         }
+        nb.extend(crate::fx::edge_points(&[2f64.powi(-450), 2f64.powi(450)], quick));
         let nn = nb.len();
         r.notes.push(format!("neighbourhoods: {} base points (k·π/180, r·180/π, whole numbers, the 19 constants) x offsets of 0..80 and 96..2^40 double-double ulps x both sides x both signs = {} operands", bases.len(), nn));
         r.add_sample(json!({"call": "to_degrees", "x": show_dd(nb[nn / 3]), "family": "neighbourhood of a nice pre-image"}));
